@@ -20,7 +20,9 @@ RULE = ("grammars extracted from random treebanks (any fan-out, shared lineariza
 TRUSTED = ["codecs and the file system are exercised, not modelled"]
 ASSUMPTIONS = ["labels carry no parentheses, whitespace or trailing digit (RCG); LoPar only for context-free grammars"]
 
-WORDS = ["der", "Hund", "bellt", "Haus", "a", "Bellt", "été", "Zug", "Über", "x"]
+WORDS = ["der", "Hund", "bellt", "Haus", "a", "Bellt", "été", "Zug", "Über", "x",
+         # capitalisation is decided by the FIRST character only: all-caps, CamelCase, an uncased first character
+         "EU", "USA", "ÖVP", "McDonalds", "iPhone", "X", "-Punkt", "ßA", "ÉTÉ"]
 
 
 def mk(rng, disc=True):
